@@ -774,6 +774,38 @@ fn run_early_stop(
             StopKind::Intrinsic => {}
         }
         let r = ex.exec(&v);
+        if let StopKind::StdoutFails { .. } = kind {
+            let n = r.io.stdout_failed_writes;
+            ex.probe(match n {
+                0 => "stdout_failed_writes=0",
+                1 => "stdout_failed_writes=1",
+                2 => "stdout_failed_writes=2",
+                3..=4 => "stdout_failed_writes=3..4",
+                5..=8 => "stdout_failed_writes=5..8",
+                9..=32 => "stdout_failed_writes=9..32",
+                _ => "stdout_failed_writes>32",
+            });
+        }
+        if let StopKind::StdoutFails { .. } = kind {
+            // Bounded reaction: once a write to stdout has failed the tool stops producing output. On
+            // the unchanged tree at most 4 further attempts are ever made (the failing view / writer /
+            // statistics printer, then the report); a tool that keeps printing batch after batch into
+            // the closed pipe never ends on an endless input.
+            const MAX_FAILED_STDOUT_WRITES: u64 = 8;
+            if r.io.stdout_failed_writes > MAX_FAILED_STDOUT_WRITES {
+                out.fail = Some(Fail::new(
+                    "early-stop",
+                    "keeps-writing-to-failed-stdout",
+                    format!(
+                        "{} writes to stdout were attempted after it had failed at byte {:?} (bound {MAX_FAILED_STDOUT_WRITES}): the closed output is not noticed [cmd: {}]",
+                        r.io.stdout_failed_writes,
+                        v.io.stdout_fail_at,
+                        v.cmdline()
+                    ),
+                ));
+                return out;
+            }
+        }
         if r.outcome.stop_injected_at.is_some() {
             let full = r.outcome.probes.get("send_blocked_full_queue").copied().unwrap_or(0);
             if full > 0 {
